@@ -199,7 +199,7 @@ pub fn matcase_strategy(max: usize, allow_f32: bool) -> BoxedStrategy<MatCase> {
         .boxed()
 }
 
-fn strat_matop(_t: Tier) -> BoxedStrategy<MatCase> {
+pub fn strat_matop(_t: Tier) -> BoxedStrategy<MatCase> {
     matcase_strategy(12, true)
 }
 
@@ -275,7 +275,7 @@ pub fn offset_values(r: usize, c: usize, f32: bool) -> BoxedStrategy<(Mat, f64)>
         .boxed()
 }
 
-fn strat_var(_t: Tier) -> BoxedStrategy<VarCase> {
+pub fn strat_var(_t: Tier) -> BoxedStrategy<VarCase> {
     (shape(12), any::<bool>(), any::<bool>(), prop::bool::weighted(0.3), prop::bool::weighted(0.3))
         .prop_flat_map(|((r, c), axis, std, vector, f32)| {
             let (r, c) = if vector { (1, r * c) } else { (r, c) };
@@ -315,7 +315,7 @@ pub struct ScaleCase {
     pub std: Vec<f64>,
 }
 
-fn strat_scale(_t: Tier) -> BoxedStrategy<ScaleCase> {
+pub fn strat_scale(_t: Tier) -> BoxedStrategy<ScaleCase> {
     (shape(12), any::<bool>(), prop::bool::weighted(0.3))
         .prop_flat_map(|((r, c), axis, f32)| {
             let k = if axis { c } else { r };
@@ -363,7 +363,7 @@ pub fn softmax_values(r: usize, c: usize, f32: bool) -> BoxedStrategy<Mat> {
     .boxed()
 }
 
-fn strat_softmax(_t: Tier) -> BoxedStrategy<SoftmaxCase> {
+pub fn strat_softmax(_t: Tier) -> BoxedStrategy<SoftmaxCase> {
     (shape(12), prop::bool::weighted(0.3))
         .prop_flat_map(|((r, c), f32)| softmax_values(r, c, f32).prop_map(move |a| SoftmaxCase { f32, a }))
         .boxed()
@@ -483,7 +483,7 @@ pub fn veccase_strategy(max: usize, allow_f32: bool) -> BoxedStrategy<VecCase> {
         .boxed()
 }
 
-fn strat_vecop(_t: Tier) -> BoxedStrategy<VecCase> {
+pub fn strat_vecop(_t: Tier) -> BoxedStrategy<VecCase> {
     veccase_strategy(24, true)
 }
 
@@ -523,7 +523,7 @@ pub struct CtorCase {
     pub a: Mat,
 }
 
-fn strat_ctor(_t: Tier) -> BoxedStrategy<CtorCase> {
+pub fn strat_ctor(_t: Tier) -> BoxedStrategy<CtorCase> {
     shape(12).prop_flat_map(|(r, c)| values(r, c).prop_map(|a| CtorCase { a })).boxed()
 }
 
@@ -595,7 +595,7 @@ pub struct SeqCase {
     pub ops: Vec<SeqOp>,
 }
 
-fn strat_seq(t: Tier) -> BoxedStrategy<SeqCase> {
+pub fn strat_seq(t: Tier) -> BoxedStrategy<SeqCase> {
     let p = || 0u8..3;
     let op = prop_oneof![
         p().prop_map(SeqOp::Transpose),
